@@ -3,6 +3,7 @@
 //! ```text
 //! M <hex>     boot information region (length = max(8, r8(total size)))
 //! H <hex>     header region (length = max(16, r8(length)); defined enums)
+//! K <n> <hex>  construct fixed-size tag number n (C07 numbering) from argument words
 //! ```
 //!
 //! and answers each with the address-free transcript of "load, walk, decode
@@ -15,6 +16,115 @@ use mb2_model::exercise_hdr::{exercise_hdr, HdrOpts};
 use mb2_model::exercise_mbi::{exercise_mbi, MbiOpts};
 use mb2_sandbox::{run_child, ChildResult, Guarded};
 use std::io::{BufRead, Write};
+
+/// Argument words consumed in declaration order (mirrors the C07 check).
+struct Args<'a> {
+    w: &'a [u64],
+    i: usize,
+}
+
+impl Args<'_> {
+    fn next(&mut self) -> u64 {
+        let v = self.w.get(self.i).copied().unwrap_or(0x0102_0304_0506_0708u64.wrapping_mul(self.i as u64 + 1));
+        self.i += 1;
+        v
+    }
+    fn u8(&mut self) -> u8 {
+        self.next() as u8
+    }
+    fn u16(&mut self) -> u16 {
+        self.next() as u16
+    }
+    fn u32(&mut self) -> u32 {
+        self.next() as u32
+    }
+    fn u64(&mut self) -> u64 {
+        self.next()
+    }
+}
+
+/// Builds the fixed-size tag that C07 numbers `ctor` from the argument words
+/// and returns its `as_bytes()` (these constructors exist without the builder
+/// feature, so every configuration can be asked).
+fn construct(ctor: u8, words: &[u64]) -> Option<Vec<u8>> {
+    use multiboot2 as m;
+    use multiboot2_common::MaybeDynSized;
+    use multiboot2_header as h;
+    let mut a = Args { w: words, i: 0 };
+    let flag = |x: u64| if x & 1 == 0 { h::HeaderTagFlag::Required } else { h::HeaderTagFlag::Optional };
+    Some(match ctor {
+        0 => {
+            let (v, cs, of, c16, ds, fl, cl, c16l, dl) = (a.u16(), a.u16(), a.u32(), a.u16(), a.u16(), a.u16(), a.u16(), a.u16(), a.u16());
+            m::ApmTag::new(v, cs, of, c16, ds, fl, cl, c16l, dl).as_bytes().to_vec()
+        }
+        1 => {
+            let (lo, up) = (a.u32(), a.u32());
+            m::BasicMemoryInfoTag::new(lo, up).as_bytes().to_vec()
+        }
+        2 => {
+            let (bd, sl, pt) = (a.u32(), a.u32(), a.u32());
+            m::BootdevTag::new(bd, sl, pt).as_bytes().to_vec()
+        }
+        5 => m::EFISdt32Tag::new(a.u32()).as_bytes().to_vec(),
+        6 => m::EFISdt64Tag::new(a.u64()).as_bytes().to_vec(),
+        7 => m::EFIImageHandle32Tag::new(a.u32()).as_bytes().to_vec(),
+        8 => m::EFIImageHandle64Tag::new(a.u64()).as_bytes().to_vec(),
+        9 => m::EFIBootServicesNotExitedTag::new().as_bytes().to_vec(),
+        11 => m::EndTag::default().as_bytes().to_vec(),
+        15 => m::ImageLoadPhysAddrTag::new(a.u32()).as_bytes().to_vec(),
+        21 => {
+            let (ck, rev, rs) = (a.u8(), a.u8(), a.u32());
+            let oem: [u8; 6] = core::array::from_fn(|i| 0x41 + ((words.first().copied().unwrap_or(0) >> (8 * i)) as u8) % 26);
+            m::RsdpV1Tag::new(ck, oem, rev, rs).as_bytes().to_vec()
+        }
+        22 => {
+            let (ck, rev, rs, len, xs, ek) = (a.u8(), a.u8(), a.u32(), a.u32(), a.u64(), a.u8());
+            let oem: [u8; 6] = core::array::from_fn(|i| 0x61 + ((words.first().copied().unwrap_or(0) >> (8 * i)) as u8) % 26);
+            m::RsdpV2Tag::new(ck, oem, rev, rs, len, xs, ek).as_bytes().to_vec()
+        }
+        26 => {
+            let fl = flag(a.u64());
+            let (ha, la, le, be) = (a.u32(), a.u32(), a.u32(), a.u32());
+            h::AddressHeaderTag::new(fl, ha, la, le, be).as_bytes().to_vec()
+        }
+        27 => {
+            let fl = flag(a.u64());
+            let cf = if a.u64() & 1 == 0 { h::ConsoleHeaderTagFlags::ConsoleRequired } else { h::ConsoleHeaderTagFlags::EgaTextSupported };
+            h::ConsoleHeaderTag::new(fl, cf).as_bytes().to_vec()
+        }
+        28 => h::EndHeaderTag::new().as_bytes().to_vec(),
+        29 => {
+            let fl = flag(a.u64());
+            h::EntryAddressHeaderTag::new(fl, a.u32()).as_bytes().to_vec()
+        }
+        30 => {
+            let fl = flag(a.u64());
+            h::EntryEfi32HeaderTag::new(fl, a.u32()).as_bytes().to_vec()
+        }
+        31 => {
+            let fl = flag(a.u64());
+            h::EntryEfi64HeaderTag::new(fl, a.u32()).as_bytes().to_vec()
+        }
+        32 => {
+            let fl = flag(a.u64());
+            let (wi, he, de) = (a.u32(), a.u32(), a.u32());
+            h::FramebufferHeaderTag::new(fl, wi, he, de).as_bytes().to_vec()
+        }
+        34 => h::ModuleAlignHeaderTag::new(flag(a.u64())).as_bytes().to_vec(),
+        35 => {
+            let fl = flag(a.u64());
+            let (mn, mx, al) = (a.u32(), a.u32(), a.u32());
+            let pf = match a.u64() % 3 {
+                0 => h::RelocatableHeaderTagPreference::None,
+                1 => h::RelocatableHeaderTagPreference::Low,
+                _ => h::RelocatableHeaderTagPreference::High,
+            };
+            h::RelocatableHeaderTag::new(fl, mn, mx, al, pf).as_bytes().to_vec()
+        }
+        36 => h::EfiBootServiceHeaderTag::new(flag(a.u64())).as_bytes().to_vec(),
+        _ => return None,
+    })
+}
 
 fn main() {
     mb2_model::panics::install_hook();
@@ -33,6 +143,27 @@ fn main() {
             let _ = out.flush();
             continue;
         };
+        if kind == "K" {
+            // K <ctor> <hex of little-endian u64 argument words>
+            let mut it = hex.split(' ');
+            let ctor: u8 = it.next().and_then(|x| x.parse().ok()).unwrap_or(255);
+            let raw = it.next().and_then(|x| mb2_model::unhex(x.trim())).unwrap_or_default();
+            let words: Vec<u64> = raw.chunks_exact(8).map(|c| u64::from_le_bytes(c.try_into().unwrap())).collect();
+            match mb2_model::panics::catch(|| construct(ctor, &words)) {
+                Some(Some(b)) => {
+                    let _ = writeln!(out, "bytes = '{}'", mb2_model::hex(&b));
+                }
+                Some(None) => {
+                    let _ = writeln!(out, "ERROR unknown constructor");
+                }
+                None => {
+                    let _ = writeln!(out, "bytes = PANIC");
+                }
+            }
+            let _ = writeln!(out, ".");
+            let _ = out.flush();
+            continue;
+        }
         let Some(bytes) = mb2_model::unhex(hex.trim()) else {
             let _ = writeln!(out, "ERROR bad hex\n.");
             let _ = out.flush();
